@@ -75,7 +75,8 @@ def decodeTest : Out → Option NaTest
   | .ret [] (.app "np.isnat" [.sym "self"]) => some .isnat
   | .ret [] (.app "np.isnan" [.sym "self"]) => some .isnan
   | .ret [] (.app "Eq" [.sym "self", .sym "dtypes.string.na_object"]) => some .eqEmpty
-  | .ret [] (.app ".fast" [.sym "self", .sym "[x is None for x in self]", .sym "bool"]) => some .isNone
+  | .ret [] (.app ".fast" [.sym "self", .app "ListComp" [.app "Is" [.sym "x", .sym "None"],
+      .app "in" [.sym "x", .sym "self", .app "if" []]], .sym "bool"]) => some .isNone     -- [x is None for x in self]
   | _ => none
 
 /-- which missing value a test recognises. -/
